@@ -6,9 +6,13 @@ cd "$(dirname "$0")"
 ids="$@"; [ -z "$ids" ] && ids=$(ls seeded)
 one() {
   id=$1; prop=$(python3 -c "import json;print(json.load(open('seeded/$id/meta.json'))['property'])")
+  sup=$(python3 -c "import json;print(json.load(open('seeded/$id/meta.json')).get('superseded_by',''))")
+  if [ -n "$sup" ]; then echo "$id $prop skipped (kept for the record: $sup)"; return; fi
   S=$(mktemp -d /tmp/seedXXXX)
   rsync -a --exclude target --exclude .git /repo/ $S/
-  if ! (cd $S && patch -p1 -s --no-backup-if-mismatch < /verif/seeded/$id/patch.diff >/dev/null 2>&1); then echo "$id $prop PATCH-DOES-NOT-APPLY"; rm -rf $S; return; fi
+  # patch_current.diff = the same change ported onto the current tree (written when a later fix: commit touched the same lines)
+  pf=/verif/seeded/$id/patch.diff; [ -f /verif/seeded/$id/patch_current.diff ] && pf=/verif/seeded/$id/patch_current.diff
+  if ! (cd $S && patch -p1 -s --no-backup-if-mismatch < $pf >/dev/null 2>&1); then echo "$id $prop PATCH-DOES-NOT-APPLY"; rm -rf $S; return; fi
   out=$(VERIF_REPO=$S ./check $prop 2>&1); rc=$?
   lane=$(echo "$out" | grep -c "^VIOLATION")
   nf=$(echo "$out" | grep -c "no-failing-input-found")
